@@ -504,7 +504,7 @@ Token *tokenize(File *file) {
     // Skip line comments.
     if (startswith(p, "//")) {
       p += 2;
-      while (*p != '\n')
+      while (*p && *p != '\n')
         p++;
       has_space = true;
       continue;
@@ -634,7 +634,10 @@ Token *tokenize(File *file) {
     error_at(p, "invalid token");
   }
 
+  // The end of input also ends the last line, even if that line has
+  // no newline (the text may stop at a NUL byte).
   cur = cur->next = new_token(TK_EOF, p, p);
+  cur->at_bol = true;
   add_line_numbers(head.next);
   return head.next;
 }
